@@ -43,24 +43,74 @@ Proof.
       unfold sflying; simpl; repeat split; auto; lia.
 Qed.
 
-Lemma simple_walk_accepts : forall tr s s', SInv s -> srun s tr = Some s' ->
-  simple_walk (sflying s) (nshut s) (spevs tr) = [].
+(* the checker's per-thread "record being ended" agrees with the program counters *)
+Definition cur_ok (cur : list (nat * nat)) (s : sst) : Prop :=
+  forall t id, (spc_of s t = PWant id \/ spc_of s t = PHold id) -> cur_get t cur = Some id.
+
+Lemma cur_get_set_same t v l : cur_get t (cur_set t v l) = Some v.
+Proof. unfold cur_set; simpl. rewrite Nat.eqb_refl. reflexivity. Qed.
+
+Lemma cur_get_filter_other t t' l : t' <> t -> cur_get t' (filter (fun x => negb (Nat.eqb (fst x) t)) l) = cur_get t' l.
 Proof.
-  induction tr as [|[t e] tr IH]; intros s s' I H; simpl in *; auto.
+  intros N. induction l as [|[a v] l IH]; simpl; auto.
+  destruct (Nat.eqb_spec a t) as [->|Na]; simpl.
+  - destruct (Nat.eqb_spec t' t); [contradiction | exact IH].
+  - destruct (Nat.eqb_spec t' a); [reflexivity | exact IH].
+Qed.
+
+Lemma cur_get_set_other t t' v l : t' <> t -> cur_get t' (cur_set t v l) = cur_get t' l.
+Proof.
+  intros N. unfold cur_set; simpl. destruct (Nat.eqb_spec t' t); [contradiction|]. apply cur_get_filter_other; exact N.
+Qed.
+
+Lemma cur_step cur s t e s' : cur_ok cur s -> saccept s (t, e) = Some s' ->
+  cur_ok (match e with SCallOnEnd id => cur_set t id cur | _ => cur end) s' /\
+  match e with SExpBegin ids => ids_are ids (cur_get t cur) = true | _ => True end.
+Proof.
+  intros C H. unfold saccept in H; simpl in H.
+  destruct (spc_of s t) eqn:P; destruct e; try discriminate H;
+    repeat match type of H with
+           | context [if ?c then _ else _] => destruct c eqn:?; try discriminate H
+           | context [match ?x with _ => _ end] => destruct x eqn:?; try discriminate H
+           end; inversion H; subst; clear H; simpl.
+  all: split; try exact I.
+  all: try (intros tq iq Hp; unfold cur_ok in C; simpl in Hp; unfold supd in Hp;
+            destruct (Nat.eqb_spec tq t) as [->|Nt];
+            [ try (rewrite cur_get_set_same); destruct Hp as [Hp|Hp]; try discriminate Hp; try (inversion Hp; subst);
+              try reflexivity; try (apply C; rewrite P; auto; fail)
+            | try (rewrite cur_get_set_other by exact Nt); apply C; exact Hp ]; fail).
+  all: try (intros tq iq Hp; apply C; exact Hp).
+  (* SExpBegin: the thread holds the lock for exactly the record it is ending *)
+  all: try (match goal with E : Nat.eqb _ _ = true |- _ => apply Nat.eqb_eq in E; subst end;
+            rewrite (C t _ (or_intror P)); simpl; apply Nat.eqb_refl).
+Qed.
+
+Lemma simple_walk_accepts : forall tr cur s s', SInv s -> cur_ok cur s -> srun s tr = Some s' ->
+  simple_walk_cur cur (sflying s) (nshut s) (spevs tr) = [].
+Proof.
+  induction tr as [|[t e] tr IH]; intros cur s s' I C H; simpl in *; auto.
   destruct (saccept s (t, e)) as [s1|] eqn:A; [|discriminate].
   pose proof (simple_step s t e s1 I A) as St. pose proof (saccept_preserves s (t, e) s1 I A) as I1.
-  specialize (IH s1 s' I1 H).
+  destruct (cur_step cur s t e s1 C A) as [C1 Ids].
+  specialize (IH _ s1 s' I1 C1 H).
   destruct e; simpl; try (destruct St as [E1 E2]; rewrite E1, E2 in IH; exact IH).
-  - destruct St as (F & F' & L & N). rewrite F, L. simpl. rewrite F', N in IH. exact IH.
+  - destruct St as (F & F' & L & N). rewrite F, L, Ids. simpl. rewrite F', N in IH. exact IH.
   - destruct St as (F & F' & N). rewrite F. simpl. rewrite F', N in IH. exact IH.
   - destruct St as (Z & O & F). rewrite Z. simpl. rewrite O, F in IH. exact IH.
 Qed.
 
 (* every accepted trace, from the initial state, passes the simple-processor history checker *)
 Theorem accepted_trace_meets_simple_spec tr s : srun sinit tr = Some s -> simple_walk false 0 (spevs tr) = [].
-Proof. intros H. exact (simple_walk_accepts tr sinit s SInv_init H). Qed.
+Proof.
+  intros H. unfold simple_walk. apply (simple_walk_accepts tr [] sinit s SInv_init); [|exact H].
+  intros t id [Hp|Hp]; simpl in Hp; discriminate Hp.
+Qed.
 
 (* the statement is not vacuous: an overlapping Export is rejected by the checker *)
 Example simple_walk_rejects_overlap :
   simple_walk false 0 (spevs [(1, SExpBegin [7]); (2, SExpBegin [8])]) <> [].
+Proof. vm_compute. discriminate. Qed.
+
+Example simple_walk_rejects_foreign_record :
+  simple_walk false 0 (spevs [(1, SCallOnEnd 7); (2, SCallOnEnd 8); (1, SExpBegin [8])]) <> [].
 Proof. vm_compute. discriminate. Qed.
